@@ -220,6 +220,31 @@ def _host_slices(tier):
     return [{"hosts": h, "max_cores": 4, "max_clients": 32 if h < 3 else 20, "_w": h} for h in (1, 2, 3)] + [{"hosts": 4, "max_cores": 3, "max_clients": 14, "_w": 5}]
 
 
+def parallel_client_count(sl):
+    """track.Parallel.clients: the cap if one is given, else the sum over the sub-tasks the element holds NOW (task filters remove
+    sub-tasks after construction); the allocator hands out exactly that many client rows for it"""
+    n = concrete(fresh_int("sub_tasks", 1, 3))
+    cl = [concrete(fresh_int("clients_of_sub_task%d" % i, 1, 3)) for i in range(n)]
+    cap = [None, 1, 2, 5][concrete(fresh_int("cap_none_1_2_5", 0, 3))]
+    subs = [track.Task("s%d" % i, track.Operation("op%d" % i, "bulk"), clients=cl[i]) for i in range(n)]
+    par = track.Parallel(list(subs), clients=cap)
+    observe("as constructed: the cap, else the sum of the sub-tasks' clients", par.clients == (cap if cap is not None else sum(cl)))
+    removed = [i for i in range(n) if bool(fresh_int("remove_sub_task%d" % i, 0, 1) == 1)]
+    if len(removed) == n:
+        removed = removed[1:]  # an emptied element is dropped by the filter (C11)
+    for i in removed:
+        par.remove_task(subs[i])
+    left = [c for i, c in enumerate(cl) if i not in removed]
+    core.trace("left", len(left))
+    observe("after sub-tasks were removed: the cap, else the sum over the remaining sub-tasks", par.clients == (cap if cap is not None else sum(left)))
+    alloc = driver.Allocator([par])
+    observe("the allocator provisions exactly that many clients", alloc.clients == max(1, par.clients) and len(alloc.allocations) == alloc.clients)
+    if cap is None:
+        tas = [x for row in alloc.allocations for x in row if isinstance(x, driver.TaskAllocation)]
+        observe("no phantom clients: every client row of an uncapped element runs a sub-task", len(tas) == sum(left)
+                and all(any(isinstance(x, driver.TaskAllocation) for x in row) for row in alloc.allocations))
+
+
 HARNESSES = [
     Harness("allocation_matrix", allocation_matrix, "bounded-exhaustive", _alloc_slices, reads=READS,
             bounds={"elements": "1 full-family element; 2 elements = full x small family in both orders; 3 small-family elements",
@@ -232,6 +257,9 @@ HARNESSES = [
             stubs=["fake actor runtime, metrics store / telemetry stubs (the Driver's coordination logic is real)"],
             bounds={"schedules": "the 1- and 2-element families of allocation_matrix", "cores": "1..3"},
             doc="Driver.start_benchmark: steps == schedule elements == progress entries; progress message defined for every step"),
+    Harness("parallel_client_count", parallel_client_count, "bounded-exhaustive", lambda tier: [{}], reads=READS + [track.Parallel.clients.fget, track.Parallel.remove_task],
+            bounds={"sub-tasks": "1..3 with 1..3 clients", "cap": "none/1/2/5", "removed": "any proper subset"},
+            doc="parallel client count follows the sub-tasks the element currently holds"),
     Harness("worker_assignments", worker_assignments, "bounded-exhaustive", _host_slices, reads=READS,
             bounds={"hosts": "1..4", "cores per host": "1..4", "clients": "1..16 quick / 1..32 thorough"},
             doc="exact contiguous partition of client ids, <=1 worker per core, balanced workers"),
